@@ -17,5 +17,6 @@ CONSTANTS
   Bug_DeletePending = FALSE
   Bug_DeletePinned = FALSE
   Bug_ImmDropEarly = FALSE
+  Bug_FlushDeepDuringCompaction = FALSE
 POSTCONDITION TraceAccepted
 CHECK_DEADLOCK FALSE
